@@ -4,7 +4,6 @@
 package main
 
 import (
-	"net/url"
 	"bufio"
 	"bytes"
 	"encoding/hex"
@@ -12,6 +11,7 @@ import (
 	"io/ioutil"
 	"log"
 	"net/http"
+	"net/url"
 	"os"
 	"sort"
 	"strconv"
@@ -179,6 +179,10 @@ func (q *Req) Set(k, v string) {
 	}
 	q.Headers = append(q.Headers, [2]string{k, v})
 }
+
+// one more header line of that name
+func (q *Req) Add(k, v string) { q.Headers = append(q.Headers, [2]string{k, v}) }
+
 func (q *Req) Sx() Sx {
 	hs := Ls{}
 	for _, h := range q.Headers {
@@ -227,7 +231,7 @@ func (q *Req) HTTP() *http.Request {
 	r.RequestURI = ""
 	r.ContentLength = q.CLen
 	for _, h := range q.Headers {
-		r.Header[h[0]] = []string{h[1]}
+		r.Header[h[0]] = append(r.Header[h[0]], h[1]) // a name may come on several lines
 	}
 	return r
 }
